@@ -121,6 +121,80 @@ def bundled_worker(chunk: List[Tuple[str, str]]) -> Stats:
     return st
 
 
+def renumbered_histories() -> List[History]:
+    """Two lots, two or three disposals at one instant (each taking a different lot or part), then a continuation. Judged with the sheet order
+    reversed and the truncated history RE-WRITTEN as its own sheet: deleting the later rows renumbers every remaining row (here across 9 -> 10)."""
+    from rp2verif.lottree import balance_track
+
+    out: List[History] = []
+    for lots in (((H.B(1, 1), "="), (H.B(2, 1), "d")), ((H.B(3, 1), "="), (H.B(1, 2), "d")), ((H.B(2, 2), "="), (H.E(3, 1), "d"))):
+        for same in (((H.S(1), "d"), (H.S(1, typ="GIFT"), "=")), ((H.S(1), "d"), (H.M(2, 1), "=")), ((H.S(1, typ="GIFT"), "d"), (H.S(1), "="), (H.M(2, "1/2"), "="))):
+            for cont in (((H.B(3, 1), "d"),), ((H.B(1, 1), "d"), (H.S(1), "d")), ((H.E(2, 1), "y"),)):
+                hist = lots + same + cont
+                if not balance_track(hist)[0]:
+                    out.append(hist)
+    return out
+
+
+def judge_renumbered(st: Stats, hist: History, sch: Sequence[Tuple[int, str]]) -> None:
+    """Edge form with the truncated history written as its own (reversed) sheet; transactions are identified by their position in time."""
+    from rp2verif.seams import compute as C
+
+    full_specs = H.materialize(hist, row_order="reverse")
+    if full_specs is None:
+        return
+    st.inc("states")
+    st.inc("renumbered_nodes")
+    full = C.run_window(full_specs, sch)
+    base = {"history": H.hist_str(hist), "hist": hist, "specs": full_specs, "schedule": list(sch), "renumbered": True}
+    if not full.ok:
+        st.violation(dict(base, signature=f"C09 valid history rejected / {type(full.error).__name__}", what=f"{sched_str(sch)}: {H.hist_str(hist)} [rows reversed] :: {full.error}"))
+        return
+    D, derr = C.try_dump(full.computed)
+    if D is None:
+        st.violation(dict(base, signature="C09 figures unreadable", what=f"{sched_str(sch)}: {H.hist_str(hist)} [rows reversed] :: {derr}"))
+        return
+    pos_full = {s["row"]: i for i, s in enumerate(full_specs)}  # materialize() lists the specs in chronological order
+
+    def by_position(d: Dict[str, Any], pos: Dict[int, int], cut_instant: float, closed_before_year: int) -> Dict[str, Any]:
+        v = edge_view(d, cut_instant, closed_before_year)
+        v["detail"] = [dict(r, event=pos[r["event"]], lot=(pos[r["lot"]] if r["lot"] is not None else None)) for r in v["detail"]]
+        return v
+
+    ts = [parse_ts(s["timestamp"]) for s in full_specs]
+    for k in range(1, len(hist)):
+        if not ts[k - 1] < ts[k] or not any(s["table"] == "in" for s in full_specs[:k]):
+            continue
+        trunc_specs = H.materialize(hist[:k], row_order="reverse")
+        assert trunc_specs is not None
+        st.inc("transitions")
+        st.inc("traces_validated_against_impl")
+        t = C.run_window(trunc_specs, sch)
+        tag = f"{sched_str(sch)}: {H.hist_str(hist)} [rows reversed] cut after item {k}, truncated history written as its own sheet"
+        if not t.ok:
+            st.violation(dict(base, cut=k, signature=f"C09 truncated history rejected / {type(t.error).__name__}", what=f"{tag} :: {t.error}"))
+            continue
+        P, perr = C.try_dump(t.computed)
+        if P is None:
+            st.violation(dict(base, cut=k, signature="C09 figures unreadable", what=f"{tag} :: {perr}"))
+            continue
+        pos_trunc = {s["row"]: i for i, s in enumerate(trunc_specs)}
+        problem = C.diff_dumps(by_position(D, pos_full, ts[k - 1].timestamp(), ts[k].year), by_position(P, pos_trunc, ts[k - 1].timestamp(), ts[k].year))
+        if problem:
+            st.violation(dict(base, cut=k, signature=f"C09 continuation changed earlier results / renumbered / {problem.split(':')[0].split('[')[0]}",
+                              what=f"{tag} :: full history vs truncated history (transactions numbered by time) :: {problem}"))
+
+
+def renumbered_worker(chunk: List[History]) -> Stats:
+    from rp2verif.lotrun import single_schedules
+
+    st = Stats()
+    for hist in chunk:
+        for sch in single_schedules():
+            judge_renumbered(st, hist, sch)
+    return st
+
+
 class Runner:
     """Runs of prefixes are shared along a depth-first walk (a prefix is the truncation of all its extensions)."""
 
@@ -291,6 +365,8 @@ def worker(task: Tuple[Any, ...]) -> Stats:
                 judge_other_asset(st, hist, specs, sch)
             else:
                 judge_node(st, runner, hist, specs, sch)
+                if row_order == "reverse":
+                    judge_renumbered(st, hist, sch)
     return st
 
 
@@ -343,6 +419,15 @@ def main(tier: str, budget_s: Optional[float] = None) -> int:
     complete = complete and bdone == len(bt)
     info.append({"phase": "inputs bundled with RP2: every cut of every asset sheet of the 9 files x 4 methods (+ the file's own schedule)", "asset_sheets": len(bt),
                  "executions": total.get("bundled_nodes"), "wall_s": round(time.time() - tb, 1)})
+    rn = renumbered_histories()
+    tr = time.time()
+    rres, rdone = common.pmap(renumbered_worker, [[h] for h in rn], deadline=max(deadline, time.time() + 60))
+    for r in rres:
+        if r is not None:
+            total.merge(r)
+    complete = complete and rdone == len(rn)
+    info.append({"phase": "same-instant disposals over two lots + a continuation, reversed sheet, truncated history written as its own sheet (rows renumbered across 9 -> 10)",
+                 "histories": len(rn), "executions": total.get("renumbered_nodes"), "wall_s": round(time.time() - tr, 1)})
     lt = long_tail_histories()
     nlt = max(1, min(len(lt), common.NPROC * 2))
     lres, ldone = common.pmap(long_tail_worker, [lt[i::nlt] for i in range(nlt)], deadline=deadline)
@@ -398,7 +483,9 @@ def replay(path: str) -> int:
         p = json.load(f)
     st = Stats()
     hist = _to_tuple(p["hist"])
-    if p.get("other_asset"):
+    if p.get("renumbered"):
+        judge_renumbered(st, hist, [tuple(x) for x in p["schedule"]])
+    elif p.get("other_asset"):
         judge_other_asset(st, hist, p["specs"], [tuple(x) for x in p["schedule"]])
     else:
         judge_node(st, Runner(), hist, p["specs"], [tuple(x) for x in p["schedule"]], p.get("cut"), edge_only=any(len(it) > 2 and it[2] for it in hist))
